@@ -297,6 +297,228 @@ def gen_bounds(rng, names, c):
     return b
 
 
+# ---------------------------------------------------------------- directed families (second deepening pass)
+SQ_NAMES = [("projection_y_coordinate", "projection_x_coordinate"), ("grid_latitude", "grid_longitude"),
+            ("latitude", "longitude"), (None, None)]
+
+
+def gen_square(rng):
+    """Fields whose axes have EQUAL sizes and whose constructs on DIFFERENT axes hold equal (or nearly equal) coordinate
+    and bounds values: a square grid with identical x and y cell bounds, an auxiliary coordinate that repeats a dimension
+    coordinate of another axis, transposed 2-d constructs.  Every construct stays its own construct after a round trip."""
+    names = NamePool(rng)
+    n = rng.choice([2, 3, 3, 5])
+    nax = rng.choice([2, 2, 2, 3])
+    axes = [{"size": n, "ncdim": names.draw(DIM_NAMES, 0.3), "unlimited": False} for _ in range(nax)]
+    span = list(range(nax))
+    rng.shuffle(span)
+    dt = rng.choice(["f8", "f8", "f4", "i4", "i2"])
+    spec = {"kind": "field", "props": {"standard_name": "air_temperature"}, "ncvar": names.draw(VAR_NAMES, 0.3),
+            "axes": axes, "cons": [], "cms": [], "refs": [],
+            "data": {"axes": span, "dtype": rng.choice(["f8", "f4", "i4"]), "mask": rng.random() < 0.3}}
+    cons = spec["cons"]
+    sn = rng.choice(SQ_NAMES)
+    vb, bb = rng.randrange(3, 40), rng.randrange(3, 40)
+    same_props = rng.random() < 0.15
+    nb = rng.choice([2, 2, 4])
+    for a in range(nax):
+        props = {}
+        name = sn[0] if same_props else (sn[a] if a < 2 else "height")
+        if name:
+            props["standard_name"] = name
+        props["units"] = "km"
+        c = {"type": "dim", "axes": [a], "props": props, "dtype": dt, "ncvar": None, "mask": False,
+             "vbase": vb if rng.random() < 0.8 else vb + 1 + a}
+        if axes[a]["ncdim"] is not None and rng.random() < 0.5:
+            c["ncvar"] = axes[a]["ncdim"]
+        if rng.random() < 0.2:
+            c["vdelta"] = rng.randrange(n)
+        if rng.random() < 0.85:
+            c["bounds"] = {"n": nb, "ncvar": names.draw(["xb", "yb", "tb", "bnds"], 0.3), "ncdim": None, "props": {},
+                           "vbase": bb if rng.random() < 0.85 else bb + 1 + a}
+            if rng.random() < 0.2:
+                c["bounds"]["vdelta"] = rng.randrange(n * nb)
+        if rng.random() < 0.9:
+            cons.append(c)
+    if rng.random() < 0.5:
+        # an auxiliary coordinate that repeats the values and bounds of the dimension coordinate of ANOTHER axis
+        a = rng.randrange(nax)
+        c = {"type": "aux", "axes": [a], "props": {"long_name": "copy"}, "dtype": dt, "ncvar": names.draw(VAR_NAMES, 0.3),
+             "mask": False, "vbase": vb}
+        if rng.random() < 0.8:
+            c["bounds"] = {"n": nb, "ncvar": None, "ncdim": None, "props": {}, "vbase": bb}
+        cons.append(c)
+    if rng.random() < 0.5:
+        # two 2-d constructs of one type over (a, b) and (b, a) with the same values (and bounds)
+        t = rng.choice(["aux", "aux", "measure", "fanc"])
+        a, b = rng.sample(range(nax), 2)
+        v2 = rng.randrange(3, 40)
+        for ax in ([a, b], [b, a]):
+            c = {"type": t, "axes": ax, "props": {"long_name": "two-d"}, "dtype": dt, "ncvar": None, "mask": False, "vbase": v2}
+            if t == "measure":
+                c["measure"] = "area"
+            if t == "aux" and rng.random() < 0.7:
+                c["bounds"] = {"n": 4, "ncvar": None, "ncdim": None, "props": {}, "vbase": bb}
+            cons.append(c)
+    return spec
+
+
+VP_KINDS = ["valid_range", "valid_range", "valid_max", "valid_min", "valid_min_max", "missing_value", "_FillValue"]
+VP_PROPS = ("valid_range", "valid_min", "valid_max", "missing_value", "_FillValue")
+
+
+def add_validity(rng, spec):
+    """valid_min / valid_max / valid_range / missing_value / _FillValue properties whose values coincide with, lie just
+    outside, or lie just inside the actual data values of the construct that carries them (chosen in drive/c01.py
+    apply_vp from the data).  Dimension coordinates only get limits that leave every value valid."""
+    targets = []
+    if spec.get("data") and spec["data"]["dtype"] != "S":
+        targets.append(("data", spec["data"], spec["props"]))
+    for c in spec["cons"]:
+        if c.get("dtype", "f8") != "S" and not c.get("nodata") and not c.get("climatology"):
+            targets.append((c["type"], c, c["props"]))
+    hit = False
+    for t, c, props in targets:
+        if rng.random() >= (0.8 if t == "data" else 0.3):
+            continue
+        kind = rng.choice(VP_KINDS)
+        rel = rng.choice(["coincide", "coincide", "outside", "inside"])
+        if kind in ("missing_value", "_FillValue") and rel == "coincide":
+            # the writer refuses unmasked data equal to their own missing value (not a construct it accepts)
+            rel = "inside" if rng.random() < 0.95 else rel
+        if t == "dim" or c.get("bounds"):
+            # a coordinate with missing elements, or cell bounds beyond the valid range of their coordinate, are
+            # C07's subject (bounds inherit the attributes of the parent): limits that leave all values valid, on
+            # coordinates without bounds
+            if c.get("bounds") or kind in ("missing_value", "_FillValue"):
+                continue
+            rel = rng.choice(["coincide", "outside"])
+        for k in VP_PROPS:
+            props.pop(k, None)
+        c["vp"] = {"kind": kind, "rel": rel}
+        hit = True
+    return hit
+
+
+GN_DIMS = ["time", "lat", "lon", "lev", "ens"]
+
+
+def gen_compressed(rng):
+    """A field whose data (and some metadata constructs) are compressed by convention: by gathering (list dimension
+    first / in the middle / last among the dimensions, 1-3 gathered axes) or as a DSG ragged array (contiguous, indexed,
+    indexed contiguous), built directly from cfdm compressed arrays ('api') or read from a dataset encoded by hand
+    with netCDF4-python ('file')."""
+    ckind = rng.choice(["gathered"] * 4 + ["contiguous", "indexed", "indexed_contiguous"])
+    origin = rng.choice(["api", "file"])
+    dt = rng.choice(["f8", "f4", "i4", "i2"])
+    cs = {"ckind": ckind, "origin": origin, "dtype": dt, "mask": rng.random() < 0.5, "cons": [], "names": {}}
+    if origin == "file":
+        cs["file_fmt"] = rng.choice(["NETCDF4", "NETCDF4", "NETCDF3_CLASSIC", "NETCDF4_CLASSIC"])
+    nm = cs["names"]
+    if rng.random() < 0.5:
+        nm["data"] = rng.choice(["tas", "q", "ta_gathered"])
+    cons = cs["cons"]
+
+    def con(t, over, comp=False, **kw):
+        c = {"type": t, "over": over, "comp": comp, "props": {"long_name": "c%d" % len(cons)},
+             "dtype": rng.choice(["f8", "f4", "i4"]), "mask": comp and rng.random() < 0.3}
+        c.update(kw)
+        if origin == "file" or rng.random() < 0.4:
+            c["ncvar"] = "v%d" % len(cons)
+        cons.append(c)
+
+    if ckind == "gathered":
+        k = rng.choice([1, 2, 2, 2, 3])
+        nlead = rng.choice([0, 0, 1, 1, 2])
+        ntrail = rng.choice([0, 0, 1, 1, 2])
+        while nlead + k + ntrail > 5:
+            if ntrail > 1:
+                ntrail -= 1
+            else:
+                nlead -= 1
+        g = [rng.choice([2, 3]) for _ in range(k)]
+        shape = [rng.choice([1, 2, 3]) for _ in range(nlead)] + g + [rng.choice([1, 2, 4]) for _ in range(ntrail)]
+        tot = 1
+        for x in g:
+            tot *= x
+        nl = rng.randint(1, tot)
+        lst = sorted(rng.sample(range(tot), nl))
+        cs.update({"shape": shape, "pos": nlead, "k": k, "list": lst})
+        if rng.random() < 0.5:
+            nm["list"] = rng.choice(["landpoint", "lp", "gathered"])
+        dims = {}
+        pool = list(GN_DIMS)
+        rng.shuffle(pool)
+        for i in range(len(shape)):
+            if origin == "file" or rng.random() < 0.4:
+                dims[str(i)] = pool[i]
+        nm["dims"] = dims
+        for i in range(len(shape)):
+            if rng.random() < 0.6:
+                con("dim", [i], dtype="f8")
+        gax = list(range(nlead, nlead + k))
+        if rng.random() < 0.5:
+            con("fanc", gax, comp=True)
+        if rng.random() < 0.35 and ntrail:
+            con("fanc", gax + [nlead + k], comp=True)            # gathered axes followed by an uncompressed one
+        if rng.random() < 0.35 and nlead:
+            con("aux", [nlead - 1] + gax, comp=True)              # ... preceded by one
+        if rng.random() < 0.25 and nlead and ntrail:
+            con("fanc", [nlead - 1] + gax + [nlead + k], comp=True)
+        if rng.random() < 0.4:
+            con("aux", gax if rng.random() < 0.6 else [rng.choice(gax)])   # not compressed
+    else:
+        ninst = rng.choice([1, 2, 3, 4])
+        if rng.random() < 0.25:
+            cs["trail"] = [2]
+        if ckind == "contiguous":
+            cs["counts"] = [rng.randint(1, 3) for _ in range(ninst)]
+            if rng.random() < 0.4:
+                cs["count_props"] = {"long_name": "number of observations"}
+        elif ckind == "indexed":
+            idx = list(range(ninst)) + [rng.randrange(ninst) for _ in range(rng.randint(0, 4))]
+            rng.shuffle(idx)
+            cs["index"], cs["ninst"] = idx, ninst
+        else:
+            npf = ninst + rng.randint(0, 3)
+            pidx = list(range(ninst)) + [rng.randrange(ninst) for _ in range(npf - ninst)]
+            rng.shuffle(pidx)
+            cs["pindex"], cs["ninst"] = pidx, ninst
+            cs["pcount"] = [rng.randint(1, 3) for _ in range(npf)]
+        if rng.random() < 0.5:
+            nm["count"] = rng.choice(["row_size", "rs", "cnt"])
+        if rng.random() < 0.5:
+            nm["index"] = rng.choice(["station_index", "six"])
+        if rng.random() < 0.5:
+            nm["sample"] = rng.choice(["obs", "smp"])
+        if origin == "file" or rng.random() < 0.4:
+            nm["dims"] = {"0": "station"}
+            if cs.get("trail"):
+                nm["dims"][str(3 if ckind == "indexed_contiguous" else 2)] = "chan"
+        lead = [0, 1, 2] if ckind == "indexed_contiguous" else [0, 1]
+        if rng.random() < 0.7:
+            con("aux", lead, comp=True, props={"standard_name": "time", "units": "days since 2000-01-01"})
+        if ckind == "indexed_contiguous" and rng.random() < 0.5:
+            con("aux", [0, 1], comp=True, props={"long_name": "profile time"})
+        if rng.random() < 0.7:
+            con("aux", [0], props={"standard_name": "latitude", "units": "degrees_north"})
+        if rng.random() < 0.3:
+            con("fanc", lead, comp=True)
+        if rng.random() < 0.3 and origin == "api":
+            con("aux", [0], dtype="S", props={"long_name": "station name"})
+    o = {}
+    r = rng.random()
+    if r < 0.2:
+        o = {"fmt": rng.choice(["NETCDF3_CLASSIC", "NETCDF4_CLASSIC", "NETCDF3_64BIT_DATA"])}
+    elif r < 0.35 and origin == "api":
+        # (variables read from a dataset remember their storage: "contiguous" for the hand-encoded files, which
+        # netCDF-C does not combine with deflation - a library rule, as for hdf5_chunks="contiguous")
+        o = {"compress": 1}
+    elif r < 0.45:
+        o = {"group": False}
+    return cs, o
+
+
 def spec_dtypes(spec):
     d = set()
     if spec.get("data"):
@@ -437,6 +659,20 @@ def expected_findings(spec, opts):
     if spec["kind"] == "domain" and any(ax["unlimited"] and not any(a in c["axes"] for c in cons)
                                         for a, ax in enumerate(spec["axes"])):
         out.append("domain-unlimited-axis-without-constructs-read-with-size-zero")
+    # two axes of one size with indistinguishable 1-d constructs: equals pairs them in key order (C05 twin-axes-order)
+    def axis_content(a):
+        out = []
+        for j, c in enumerate(cons):
+            if c["axes"] == [a] and not c.get("nodata"):
+                b = c.get("bounds")
+                out.append(lib.canon([c["type"], c["props"], c.get("dtype"), c.get("vbase", ("own", j)), c.get("vdelta"),
+                                      bool(c.get("mask")), c.get("vp"), c.get("measure"),
+                                      None if not b else [b["n"], b["props"], b.get("vbase", ("own", j)), b.get("vdelta")]]))
+        return sorted(out)
+    ac = [axis_content(a) for a in range(len(spec["axes"]))]
+    if any(ac[a] and ac[a] == ac[b] and spec["axes"][a]["size"] == spec["axes"][b]["size"]
+           for a in range(len(ac)) for b in range(a)):
+        out.append("twin-axes:equals-cannot-pair-indistinguishable-axes")
     # size-1 axes that the data do not span
     for a in range(len(spec["axes"])):
         if a in sp:
@@ -465,7 +701,7 @@ def row_ok(r):
 def symptoms(r):
     """What is wrong with a row, component by component."""
     s = set()
-    for k in ("write_err", "read_err", "equals_err", "crash", "harness_err"):
+    for k in ("write_err", "read_err", "equals_err", "realise_err", "crash", "harness_err"):
         if k in r:
             s.add(k)
     if "n_read" in r and r["n_read"] != 1:
@@ -495,6 +731,7 @@ SIG_SYMPTOMS = {
     "equal-constructs-share-a-variable": {"names:var", "names:bvar"},
     "netcdf4-classic-fill-value-after-data": {"write_err"},
     "unspanned-size1-axis:no-coordinate": {"equals", "fp:axes", "fp:cell_methods"},   # a cell method may name the axis
+    "twin-axes:equals-cannot-pair-indistinguishable-axes": {"equals"},
 }
 
 
@@ -518,6 +755,8 @@ def residual_signature(extra, r):
         return "write-raises"
     if "read_err" in extra:
         return "read-raises"
+    if "realise_err" in extra:
+        return "data-read-back-cannot-be-realised"
     if "crash" in extra:
         return "worker-crash"
     if "n_read" in extra:
@@ -538,7 +777,7 @@ def residual_signature(extra, r):
 
 
 def describe(r):
-    for k in ("build_err", "write_err", "read_err", "equals_err", "harness_err"):
+    for k in ("build_err", "write_err", "read_err", "realise_err", "equals_err", "harness_err"):
         if k in r:
             return f"{k}: {r[k][:160]}"
     return (f"n_read={r.get('n_read')} equals={r.get('eq_fg')}/{r.get('eq_gf')} fingerprint_equal={r.get('fp_equal')} "
@@ -600,6 +839,23 @@ def build_cases(chk):
         cases.append({"spec": spec, "options": gen_options(rng, spec, default=rng.random() < 0.25), "fam": "generated"})
         if rng.random() < (0.8 if T else 0.5):
             cases.append({"spec": spec, "options": gen_options(rng, spec), "fam": "generated"})
+    nsq, nvp, ncs = (300, 500, 600) if T else (70, 110, 130)
+    for _ in range(nsq):
+        spec = gen_square(rng)
+        o = {}
+        if rng.random() < 0.4:
+            o = gen_options(rng, spec)
+            o.pop("endian", None)
+        cases.append({"spec": spec, "options": o, "fam": "square"})
+    for _ in range(nvp):
+        spec = gen_spec(rng, "full" if rng.random() < 0.5 else "core")
+        if not add_validity(rng, spec):
+            continue
+        cases.append({"spec": spec, "options": gen_options(rng, spec, default=rng.random() < 0.4), "fam": "validity",
+                      "expect_masked": True})
+    for _ in range(ncs):
+        cs, o = gen_compressed(rng)
+        cases.append({"cs": cs, "options": o, "fam": "compressed"})
     for _ in range(ncore):
         spec = gen_spec(rng, "core")
         o = {}
@@ -650,6 +906,10 @@ def oracle(chk, cases, rows, stats):
             continue
         if "build_err" in r:
             stats["not-buildable"] = stats.get("not-buildable", 0) + 1
+            stats["not-buildable:" + fam] = stats.get("not-buildable:" + fam, 0) + 1
+            stats.setdefault("not-buildable-examples", [])
+            if len(stats["not-buildable-examples"]) < 4:
+                stats["not-buildable-examples"].append(fam + ": " + r["build_err"][:160])
             continue
         exp = expected_findings(c["spec"], c["options"]) if "spec" in c else (
             ["endian-big-read-back-dtype-not-equal"] if c["options"].get("endian") == "big" else [])
@@ -664,6 +924,13 @@ def oracle(chk, cases, rows, stats):
                 chk.fail("property", "cell-method-names-scalar-coordinate-of-another-axis",
                          f"attribute {vn}:{an} is {got!r}, expected {val!r}",
                          {"input": {k: v for k, v in c.items() if k != "i"}, "expected": val, "observed": got})
+        if r.get("pre_fail"):
+            # independent of any round trip: a CF dataset encoded by hand, decoded with numpy, read with cfdm.read
+            stats["sig:hand-encoded-compressed-dataset-misread"] = stats.get("sig:hand-encoded-compressed-dataset-misread", 0) + 1
+            chk.fail("property", "hand-encoded-compressed-dataset-misread",
+                     f"cfdm.read of a hand-encoded {c['cs']['ckind']} dataset: {r['pre_fail'][:3]}",
+                     {"input": {k: v for k, v in c.items() if k != "i"}, "expected": "the arrays CF 8.2 / 9.3 define",
+                      "observed": r["pre_fail"]})
         if "crash" in r:
             explained.add(c["i"])
             chk.fail("property", "worker-crash", f"the interpreter died while writing/reading: {r['crash'][:120]}",
@@ -671,6 +938,12 @@ def oracle(chk, cases, rows, stats):
             continue
         if "harness_err" in r and "n_read" not in r:
             chk.fail("correspondence", "harness-error", r["harness_err"], {"correspondence": "drive/c01.py", "input": c})
+            continue
+        if "write_err" in r and "_FillValue or missing_value at unmasked point" in r["write_err"] and "spec" in c and any(
+                (x.get("vp") or {}).get("kind") in ("missing_value", "_FillValue") and x["vp"]["rel"] == "coincide"
+                for x in c["spec"]["cons"] + ([c["spec"]["data"]] if c["spec"].get("data") else [])):
+            # unmasked data equal to their own missing value: the writer refuses the construct (not one it accepts)
+            stats["writer-refuses-unmasked-missing-value"] = stats.get("writer-refuses-unmasked-missing-value", 0) + 1
             continue
         if row_ok(r):
             stats["round-trips"] = stats.get("round-trips", 0) + 1
@@ -691,6 +964,8 @@ def oracle(chk, cases, rows, stats):
             sig = "write-raises"
         elif "read_err" in r:
             sig = "read-raises"
+        elif "realise_err" in r:
+            sig = "data-read-back-cannot-be-realised"
         elif r.get("n_read") != 1:
             sig = "not-exactly-one-construct"
         elif r.get("fp_equal") is False:
@@ -892,10 +1167,29 @@ def run(chk, model_ok):
     feats = {}
     distinct = set()
     for c in cases:
+        if "cs" in c:
+            cs = c["cs"]
+            tags = ["compressed:" + cs["ckind"], "compressed-origin:" + cs["origin"]]
+            if cs["ckind"] == "gathered":
+                last = len(cs["shape"]) - cs["k"]
+                tags.append("gathered-list-dimension:" + ("only" if last == 0 else "first" if cs["pos"] == 0 else
+                                                          "last" if cs["pos"] == last else "middle"))
+                tags.append("gathered-axes:%d" % cs["k"])
+            if any(x.get("comp") for x in cs["cons"]):
+                tags.append("compressed-metadata-construct")
+            for t in tags:
+                feats[t] = feats.get(t, 0) + 1
+            distinct.add(lib.canon([cs, c["options"]]))
+            continue
         if "spec" not in c:
             continue
         sp = c["spec"]
         tags = ["kind:" + sp["kind"], "axes:%d" % len(sp["axes"])]
+        if c.get("fam") in ("square", "validity"):
+            tags.append("family:" + c["fam"])
+        for x in sp["cons"] + ([sp["data"]] if sp.get("data") else []):
+            if x.get("vp"):
+                tags.append("validity:%s:%s" % (x["vp"]["kind"], x["vp"]["rel"]))
         tags += sorted({"con:" + x["type"] for x in sp["cons"]})
         tags += ["fmt:" + c["options"].get("fmt", "NETCDF4")]
         tags += sorted("opt:" + k for k in c["options"] if k != "fmt")
